@@ -184,23 +184,32 @@ theorem policing_skip (prev cur : Nat × Nat) (ret : Ret) :
 
 /-- A plain error, or an error reported by the coder to the user code, is never swallowed. -/
 theorem policing_error (maxDepth : Nat) (m : Machine) (script : List Op) (ret : Ret)
-    (h : ret = .other ∨ (runScript maxDepth script m).2.isSome = true) : userCall maxDepth m script ret ≠ .done := by
+    (h : ret = .other ∨ (runPoliced maxDepth m.stack.length script m).2.isSome = true) :
+    userCall maxDepth m script ret ≠ .done := by
   rcases h with h | h
-  · subst h; simp [userCall, police]
+  · subst h; simp [userCall, userCallWithFloor, police]
   · rw [userCall_error _ _ _ _ h]; simp
 
-/-- `exactly_one_value`.  For EVERY script of coder calls that the coder accepted (`hrun`) and that never closed a
-container it had not opened itself (`hshape`: `shape` did not hit `none`), run from EVERY state of
-`Model.State.Machine`: the DepthLength comparison accepts (depth unchanged, length + 1)
-iff the script ended at its starting level (`r = 0`) having begun exactly one value there (`c = 1`),
-i.e. iff it wrote/read exactly one complete JSON value.
+/-- `no_pop_below_floor`.  Key invariant of the floor (jsontext/state.go `Floor`, raised by the four call sites to
+`len(Tokens.Stack)`): for EVERY script, every machine reached while user code runs still has all the containers that
+were open when the call began — whether or not the script ends in an error. -/
+theorem no_pop_below_floor (maxDepth floor : Nat) (script : List Op) (m : Machine) (h : floor ≤ m.stack.length) :
+    floor ≤ (runPoliced maxDepth floor script m).1.stack.length :=
+  JsonV.Lemmas.DispatchPolice.no_pop_below_floor maxDepth floor script m h
+
+/-- `exactly_one_value`, UNRESTRICTED (this was the false `exactly_one_value_full` before the fix a29e0ae).
+For EVERY state of `Model.State.Machine` and EVERY script of coder calls run under the floor of the call
+(as `userCall` does) that the coder accepted: the script has a shape (it cannot have closed a container it did not
+open), and the DepthLength comparison accepts (depth unchanged, length + 1) iff the script ended at its starting
+level (`r = 0`) having begun exactly one value there (`c = 1`) — i.e. iff it wrote/read exactly one complete JSON value.
 (`hov`: the 61-bit element counter of the starting level does not wrap.) -/
-theorem exactly_one_value (maxDepth : Nat) (m m' : Machine) (script : List Op) (r c : Nat)
-    (hrun : runScript maxDepth script m = (m', none))
-    (hshape : shape script 0 0 = some (r, c))
+theorem exactly_one_value (maxDepth : Nat) (m m' : Machine) (script : List Op)
+    (hrun : runPoliced maxDepth m.stack.length script m = (m', none))
     (hov : m.last.length + script.length < 2 ^ 61) :
-    (m'.depthLength = (m.depthLength.1, m.depthLength.2 + 1)) ↔ (r = 0 ∧ c = 1) := by
-  have ht := runScript_tracks maxDepth m script m m' 0 0 r c (tracks_init m) (by omega) hrun hshape
+    ∃ r c, shape script 0 0 = some (r, c) ∧
+      ((m'.depthLength = (m.depthLength.1, m.depthLength.2 + 1)) ↔ (r = 0 ∧ c = 1)) := by
+  obtain ⟨r, c, hshape, ht⟩ := runPoliced_tracks maxDepth m script m m' 0 0 (tracks_init m) (by omega) hrun
+  refine ⟨r, c, hshape, ?_⟩
   obtain ⟨hd, hlen⟩ := tracks_depthLength m m' r c ht
   simp only [Machine.depthLength, Prod.mk.injEq]
   constructor
@@ -211,27 +220,37 @@ theorem exactly_one_value (maxDepth : Nat) (m m' : Machine) (script : List Op) (
     subst hr hc
     exact ⟨by omega, hlen rfl⟩
 
-/-- In terms of the policed call: a nil-returning user function is accepted iff it handled exactly one value;
-zero values, two values, an unfinished container are all rejected. -/
-theorem policing_one_value (maxDepth : Nat) (m m' : Machine) (script : List Op) (r c : Nat)
-    (hrun : runScript maxDepth script m = (m', none))
-    (hshape : shape script 0 0 = some (r, c))
+/-- The policed call as a whole, no side conditions on the script: a nil-returning user function is accepted
+iff every one of its calls was accepted by the coder AND together they are exactly one complete value at the
+starting level.  Zero values, two values, an unfinished container, and closing the enclosing container and
+re-opening another one are all rejected. -/
+theorem exactly_one_value_full (maxDepth : Nat) (m : Machine) (script : List Op)
     (hov : m.last.length + script.length < 2 ^ 61) :
-    userCall maxDepth m script .nil = .done ↔ (r = 0 ∧ c = 1) := by
-  rw [← exactly_one_value maxDepth m m' script r c hrun hshape hov]
-  simp only [userCall, hrun, Option.isSome_none, Bool.false_eq_true, ↓reduceIte, police_done_iff, true_and,
-    Machine.depthLength, Prod.mk.injEq]
+    userCall maxDepth m script .nil = .done ↔
+      ((runPoliced maxDepth m.stack.length script m).2 = none ∧ shape script 0 0 = some (0, 1)) := by
+  cases hrun : runPoliced maxDepth m.stack.length script m with
+  | mk m' e =>
+    cases e with
+    | some e =>
+      have : userCall maxDepth m script .nil = .fail := userCall_error _ _ _ _ (by simp [hrun])
+      simp [this]
+    | none =>
+      obtain ⟨r, c, hshape, hiff⟩ := exactly_one_value maxDepth m m' script hrun hov
+      simp only [userCall, userCallWithFloor, hrun, Option.isSome_none, Bool.false_eq_true, ↓reduceIte,
+        police_done_iff, true_and, hshape, Option.some.injEq, Prod.mk.injEq]
+      simp only [Machine.depthLength, Prod.mk.injEq] at hiff
+      exact hiff
 
-/-- ErrUnsupported after ANY accepted mutating call is an error (falls through only for the empty effect). -/
-theorem unsupported_after_use (maxDepth : Nat) (m m' : Machine) (script : List Op) (r c : Nat)
-    (hrun : runScript maxDepth script m = (m', none))
-    (hshape : shape script 0 0 = some (r, c))
+/-- ErrUnsupported after ANY accepted mutating call is an error: it falls through only when the script as a whole
+is empty of effect (no value begun, back at the starting level). -/
+theorem unsupported_after_use (maxDepth : Nat) (m m' : Machine) (script : List Op)
+    (hrun : runPoliced maxDepth m.stack.length script m = (m', none))
     (hov : m.last.length + script.length < 2 ^ 61) :
-    userCall maxDepth m script .unsupported = .skip ↔ (r = 0 ∧ c = 0) := by
-  have ht := runScript_tracks maxDepth m script m m' 0 0 r c (tracks_init m) (by omega) hrun hshape
+    userCall maxDepth m script .unsupported = .skip ↔ shape script 0 0 = some (0, 0) := by
+  obtain ⟨r, c, hshape, ht⟩ := runPoliced_tracks maxDepth m script m m' 0 0 (tracks_init m) (by omega) hrun
   obtain ⟨hd, hlen⟩ := tracks_depthLength m m' r c ht
-  simp only [userCall, hrun, Option.isSome_none, Bool.false_eq_true, ↓reduceIte, police_skip_iff, true_and,
-    Machine.depthLength, Prod.mk.injEq]
+  simp only [userCall, userCallWithFloor, hrun, Option.isSome_none, Bool.false_eq_true, ↓reduceIte, police_skip_iff,
+    true_and, Machine.depthLength, Prod.mk.injEq, hshape, Option.some.injEq]
   constructor
   · rintro ⟨h1, h2⟩
     have hr : r = 0 := by omega
@@ -241,29 +260,33 @@ theorem unsupported_after_use (maxDepth : Nat) (m m' : Machine) (script : List O
     exact ⟨by omega, by have := hlen rfl; omega⟩
 
 /-- The hypotheses are satisfiable, with both answers: `{ "a" [ 1 ] }` inside an array is one value,
-`"x" "y"` is not. -/
+`"x" "y"` is not, and the escape script `] "evil" [ "x"` is now stopped at its first call. -/
 example :
     let m := (runScript 10000 [.pushA] Machine.init).1
-    runScript 10000 [.pushO, .str, .pushA, .lit, .popA, .popO] m ≠ (m, some .maxDepth) ∧
+    let esc := (runScript 10000 [.pushO, .str, .pushA] Machine.init).1
+    (runPoliced 10000 m.stack.length [.pushO, .str, .pushA, .lit, .popA, .popO] m).2 = none ∧
     shape [.pushO, .str, .pushA, .lit, .popA, .popO] 0 0 = some (0, 1) ∧
     userCall 10000 m [.pushO, .str, .pushA, .lit, .popA, .popO] .nil = .done ∧
-    shape [.str, .str] 0 0 = some (0, 2) ∧ userCall 10000 m [.str, .str] .nil = .fail := by decide
+    shape [.str, .str] 0 0 = some (0, 2) ∧ userCall 10000 m [.str, .str] .nil = .fail ∧
+    runPoliced 10000 esc.stack.length [.popA, .str, .pushA, .str] esc = (esc, some .enclosingEnd) ∧
+    userCall 10000 esc [.popA, .str, .pushA, .str] .nil = .fail := by decide
 
-/-- The unrestricted statement: the same equivalence for every accepted script, including scripts that close a
-container they did not open.  It is FALSE — on the model and on the real code (finding `policing-escape`). -/
-def exactly_one_value_full : Prop :=
-  ∀ (maxDepth : Nat) (m m' : Machine) (script : List Op),
-    runScript maxDepth script m = (m', none) → m.last.length + script.length < 2 ^ 61 →
-    (userCall maxDepth m script .nil = .done ↔ shape script 0 0 = some (0, 1))
+/-- The floor is NECESSARY.  With the floor left at 0 (the code before a29e0ae), at a nested position, the script
+`]  "evil"  [  "x"` run as the first element of an array that is an object member (`{"F":[` …) is accepted by every
+call of the coder and by the DepthLength comparison, although it is not one JSON value (`shape = none`). -/
+theorem exactly_one_value_needs_floor :
+    ∃ (m : Machine) (script : List Op),
+      (runPoliced 10000 0 script m).2 = none ∧ userCallWithFloor 10000 0 m script .nil = .done ∧
+      shape script 0 0 = none ∧ m.last.length + script.length < 2 ^ 61 :=
+  ⟨(runScript 10000 [.pushO, .str, .pushA] Machine.init).1, [.popA, .str, .pushA, .str], by decide⟩
 
-/-- The script `]  "evil"  [  "x"` run as the first element of an array that is an object member
-(`{"F":[` …) is accepted by the DepthLength comparison although it is not one JSON value. -/
-theorem exactly_one_value_full_false : ¬ exactly_one_value_full := by
-  intro h
-  have := h 10000 (runScript 10000 [.pushO, .str, .pushA] Machine.init).1
-    (runScript 10000 [.popA, .str, .pushA, .str] (runScript 10000 [.pushO, .str, .pushA] Machine.init).1).1
-    [.popA, .str, .pushA, .str] (by decide) (by decide)
-  revert this
-  decide
+/-- …and likewise for the object variant `}  {  "x"` at a name position, and the two-level `] ] "evil" [ [ "x"`. -/
+theorem needs_floor_variants :
+    userCallWithFloor 10000 0 (runScript 10000 [.pushA, .pushO] Machine.init).1 [.popO, .pushO, .str] .nil = .done ∧
+    userCall 10000 (runScript 10000 [.pushA, .pushO] Machine.init).1 [.popO, .pushO, .str] .nil = .fail ∧
+    userCallWithFloor 10000 0 (runScript 10000 [.pushO, .str, .pushA, .pushA] Machine.init).1
+      [.popA, .popA, .str, .pushA, .pushA, .str] .nil = .done ∧
+    userCall 10000 (runScript 10000 [.pushO, .str, .pushA, .pushA] Machine.init).1
+      [.popA, .popA, .str, .pushA, .pushA, .str] .nil = .fail := by decide
 
 end JsonV.Props.C17
